@@ -7,8 +7,8 @@
 //@assume 128-bit vector digests are collision-free is NOT assumed: contracts state digest equality only (DESIGN.md T7)
 //@trusted cold-tier stub (HnswBackend): token_of/fetch_* are functions of the abstract view; a fetched vector matches the digest of its token (store invariant, to be discharged by the backend_insert / backend_accessors units)
 //@trusted L1a stub (CacheStrategy): get_cached/peek_cached return the view's entry for the id; the view is unconstrained ("get_cached returns anything"); insert_cached may refuse and may evict other ids; invalidate removes exactly the id
-//@trusted hot-tier stub (HotTier): HashMap view; get_with_coherence/exists/len read it, delete/batch_delete/insert_with_coherence/update_metadata/drain_for_flush update it as named
-//@trusted query-cache stub (QueryHashCache): view = cached entries with the doc ids they reference; clear empties it; invalidate_doc(d) leaves no entry referencing d and adds nothing
+//@trusted hot-tier stub (HotTier): HashMap view; get_with_coherence/exists/len read it, delete/batch_delete/insert_with_coherence/update_metadata/drain_for_flush update it as named.  Every HotTier stub contract below is IMPLIED by the contract unit hot_tier_ops proves on the real method (checked by unit implied_hot_tier, under `statistics counters do not wrap`); HotTier::scan has no contract
+//@trusted query-cache stub (QueryHashCache): view = cached entries with the doc ids they reference; clear empties it; invalidate_doc(d) leaves no entry referencing d and adds nothing.  clear / invalidate_doc / invalidate_for_insert are IMPLIED by the contracts proved on the real query_hash_cache.rs (checked by unit implied_qcache, under the cache-state invariant wf for invalidate_doc)
 //@trusted CircuitBreaker stub: `last_open` is a history variable = the answer of the most recent is_open() call; `failures` / `successes` are history counters of the record_failure() / record_success() calls; effect capabilities: record_success() REQUIRES attempt_cap (granted by an is_open() that answered false, consumed by a verdict), record_failure() REQUIRES attempt_cap AND failure_cap (granted only by the failure outcome -- Err / worker panic / timeout -- of a fallible guarded tier operation; no stub of engine_env.rs grants it: a `None` from a point-read fetch is an answer, not a failure)
 //@trusted digest_embedding is a function of the exact f32 bit patterns (uninterpreted spec_digest)
 use anyhow::{anyhow, Result};
